@@ -223,6 +223,15 @@ def conditions(tier):
                 conds.append(Cond(name, mkfn(name, [("x0", "int"), ("c0", "int")], f"return mixed_ops_typeerror({a!r}, {b!r}, x0, c0)", GLB), timeout=300, group="mixed",
                                   bounds=f"one snapshot used with `{a}` then `{b}`"))
     conds.append(_bl("eq_list3", "[c0, c1, c2]", ["{x} == {s}"], ["[x0, x1, x2]"], ["c0", "c1", "c2", "x0", "x1", "x2"], twin=True))
+    # comparisons outside any test item are not charged to a test (no flags: active run == plain Python per test)
+    from harness import c07
+
+    glb = {"outside_case": c07.outside_case, "__name__": "harness.c06"}
+    for xf in (False, True):
+        name = f"outside_test_items_noflags{'_xfail_first' if xf else ''}"
+        body = f"return outside_case([False] * 6, {c07.VD}, {xf})"
+        conds.append(Cond(name, mkfn(name, [(n, "int") for n in c07.VALS], body, glb), timeout=600, group="outside-items",
+                          bounds="no flags: two comparisons at import time (right or wrong by symbolic values)" + (", an xfail test," if xf else "") + " then two tests with one == snapshot each: a test fails iff its own comparison is False"))
     return conds
 
 
